@@ -9,6 +9,27 @@
 #include <string.h>
 #include <strings.h>
 
+/* exact-size result buffers, size split into constant cases (symbolic malloc sizes are very expensive) */
+#ifndef CFGV_DUPMAX
+#define CFGV_DUPMAX 8
+#endif
+static char *cfgv_dup_alloc(size_t n)
+{
+	if (n == 1) return malloc(1);
+	if (n == 2) return malloc(2);
+	if (n == 3) return malloc(3);
+	if (n == 4) return malloc(4);
+	if (n == 5) return malloc(5);
+	if (n == 6) return malloc(6);
+	if (n == 7) return malloc(7);
+	if (n == 8) return malloc(8);
+	if (n == 9) return malloc(9);
+	if (n == 10) return malloc(10);
+	if (n == 11) return malloc(11);
+	if (n == 12) return malloc(12);
+	__CPROVER_assert(0, "BOUND: duplicated string longer than the case split of the reference strdup");
+	return malloc(n);
+}
 size_t strlen(const char *s)
 {
 	size_t n = 0;
@@ -64,7 +85,7 @@ char *strdup(const char *s)
 	char *r = malloc(CFGV_FIXED_DUP);
 	__CPROVER_assert(n + 1 <= CFGV_FIXED_DUP, "BOUND: strdup source fits the fixed result buffer");
 #else
-	char *r = malloc(n + 1);
+	char *r = cfgv_dup_alloc(n + 1);
 #endif
 	if (!r) return NULL;
 	for (i = 0; i < n; i++) r[i] = s[i];
@@ -80,7 +101,7 @@ char *strndup(const char *s, size_t max)
 	r = malloc(CFGV_FIXED_DUP);
 	__CPROVER_assert(n + 1 <= CFGV_FIXED_DUP, "BOUND: strndup source fits the fixed result buffer");
 #else
-	r = malloc(n + 1);
+	r = cfgv_dup_alloc(n + 1);
 #endif
 	if (!r) return NULL;
 	for (i = 0; i < n; i++) r[i] = s[i];
@@ -121,6 +142,35 @@ long strtol(const char *nptr, char **endptr, int base)
 	if (ovf) { errno = ERANGE; return neg ? LONG_MIN : LONG_MAX; }
 	if (neg) return acc ? -(long)(acc - 1UL) - 1L : 0L;
 	return (long)acc;
+}
+#endif
+#endif
+
+#ifndef CFGV_NO_REF_REALLOC
+/* reference realloc for the only use in confuse.c (cfg_addval: an array of value pointers).  CBMC's own model
+ * allocates a symbolic-size block and copies bytes, which makes every later access to the array expensive
+ * (DESIGN 2.2); this one allocates a constant-size block per case and copies pointer-wise.
+ * Contract (C11 7.22.3.5): NULL -> old block untouched; else new block, first min(old,new) elements preserved,
+ * old block released. */
+#ifndef CFGV_REF_REALLOC_H
+#define CFGV_REF_REALLOC_H
+_Bool cfgv_nondet_fail(void);
+void *realloc(void *old, size_t sz)
+{
+	size_t n = sz / sizeof(void *), on = old ? __CPROVER_OBJECT_SIZE(old) / sizeof(void *) : 0, i;
+	void **nw, **ov = (void **)old;
+	__CPROVER_assert(sz % sizeof(void *) == 0 && sz > 0, "BOUND: reference realloc is used for pointer arrays only");
+	if (n == 1) nw = malloc(1 * sizeof(void *));
+	else if (n == 2) nw = malloc(2 * sizeof(void *));
+	else if (n == 3) nw = malloc(3 * sizeof(void *));
+	else if (n == 4) nw = malloc(4 * sizeof(void *));
+	else if (n == 5) nw = malloc(5 * sizeof(void *));
+	else { __CPROVER_assert(0, "BOUND: reference realloc case split (<= 5 pointers)"); nw = malloc(sz); }
+	if (!nw) return NULL;
+	for (i = 0; i < n && i < on; i++)
+		nw[i] = ov[i];
+	if (old) free(old);
+	return nw;
 }
 #endif
 #endif
